@@ -39,6 +39,11 @@ def cases(tier, seed):
     for s in ["E" * 150, "EK" * 100, "KKG" * 100, "E" * 140 + "K" * 140, "RSED" * 120, "K" * 300, "KGGGGGGGGE",
               "G" * 50 + "K", "K" + "G" * 50, "MGGGK", "KGGGM", "S", "K", "KE", "EK" * 300]:
         yield {"k": "seq", "s": s, "pre": 0}
+    for w in gen.CODE_WORDS:
+        yield {"k": "seq", "s": w, "pre": 0}
+    for nc in (127, 128, 129, 130, 255, 256, 257, 385):
+        yield {"k": "seq", "s": ("KE" * 200)[:nc], "pre": 0}
+        yield {"k": "seq", "s": "".join(c + "G" for c in ("KKE" * 150)[:nc]), "pre": 0}
     yield {"k": "longs", "lens": [1400, 1050, 1050] if tier == "quick" else [2000, 1400, 1050, 1050, 1200]}
     for L in range(1, LP[tier] + 1):
         for pat in gen.all_patterns(L):
@@ -84,6 +89,8 @@ def judge(case, rep, S):
     if case["k"] == "pat":
         pat = M.pat_from_str(case["p"])
         seq = gen.spell(gen.sub_rng(0, ID, case["p"]), pat)
+        if len(seq) <= 7 and sum(pat) % 3 == 0:
+            case = dict(case, kappa_first=True)
     else:
         seq = case["s"]
         pat = M.pattern(seq)
@@ -95,6 +102,9 @@ def judge(case, rep, S):
         else:
             SALT.salt(S, obj, seq, r_, rep, cheap=len(seq) > 150)
         rep.cnt("after_other_queries")
+    if case.get("kappa_first"):
+        obj.get_kappa()                      # delta-max (possibly 0 although charges are present) cached before SCD
+        rep.cnt("kappa_before_scd")
     got = obj.get_SCD()
     again = obj.get_SCD()
     rep.cnt("second_calls")
